@@ -506,6 +506,7 @@ def execute(case, keep_log=False):
                     content[path] = "ref"
                     if fs.get(path) != ref_bytes:
                         res.violation("R4-routes", "save", "acknowledged save over route %s stored bytes that differ from the fault-free reference" % op["route"], site=op["route"])
+                        content[path] = "unknown"
                 else:
                     content[path] = "unknown"
                     s1 = snapper.snapshot(arg)
